@@ -249,7 +249,10 @@ fn c02_extra(base: i32) -> impl Fn(&[OpRec], &FinalView, &[String]) -> Option<(S
         // two writers presenting the same base version never both succeed
         let same_base: Vec<&OpRec> = ops.iter().filter(|o| o.line.starts_with(&format!("set-safe k {} ", base)) && o.resp == "Ok").collect();
         let first_writes: Vec<&&OpRec> = same_base.iter().filter(|o| o.idx == 0).collect();
-        if first_writes.len() >= 2 {
+        // (a remove in between makes the key absent, and a versioned write to an absent key
+        // always succeeds: the clause is about a key that exists throughout)
+        let removed = ops.iter().any(|o| o.line == "remove k" && o.resp == "Ok");
+        if first_writes.len() >= 2 && !removed {
             // both were issued against the published base (first command of their thread)
             return Some(("same-base-writers-both-succeeded".into(), format!("{:?}", first_writes.iter().map(|o| format!("t{} `{}` -> {}", o.tid, o.line, o.resp)).collect::<Vec<_>>())));
         }
